@@ -659,6 +659,8 @@ func newMapEncoder(encoder *encoding.EncodeAssembler[any, Value]) encoding.Encod
 						}
 					})
 				} else {
+					var zeroOnce sync.Once
+					var zero Value
 					dec = encoding.DecodeFunc(func(source reflect.Value, m Map) error {
 						elem := source.FieldByIndex(field.Index)
 						if meta.omitempty && elem.IsZero() {
@@ -668,6 +670,17 @@ func newMapEncoder(encoder *encoding.EncodeAssembler[any, Value]) encoding.Encod
 						if target, err := child.Encode(elem.Interface()); err != nil {
 							return err
 						} else {
+							if meta.omitempty {
+								// A value that encodes like the zero value (a duration below one millisecond, a pointer
+								// to a nil pointer, an empty slice) decodes to the zero value, which is omitted: omit it
+								// now, so that the decoded value encodes to the same document.
+								zeroOnce.Do(func() {
+									zero, _ = child.Encode(reflect.Zero(field.Type).Interface())
+								})
+								if Equal(target, zero) {
+									return nil
+								}
+							}
 							m.Set(alias, target)
 							return nil
 						}
